@@ -10,13 +10,13 @@ class ChainProgressPrinter:
         self.lead = "" if leading_msg is None else leading_msg
 
         if not display:
-            self.iterations_initial = self.__no_status
-            self.iterations_progress = self.__no_status
-            self.iterations_final = self.__no_status
-            self.percent_progress = self.__no_status
-            self.percent_final = self.__no_status
-            self.countdown_progress = self.__no_status
-            self.countdown_final = self.__no_status
+            self.iterations_initial = self._no_status
+            self.iterations_progress = self._no_status
+            self.iterations_final = self._no_status
+            self.percent_progress = self._no_status
+            self.percent_final = self._no_status
+            self.countdown_progress = self._no_status
+            self.countdown_final = self._no_status
 
     def iterations_initial(self, total_itr: int):
         sys.stdout.write("\n")
@@ -76,7 +76,7 @@ class ChainProgressPrinter:
         sys.stdout.write("\n")
 
     @staticmethod
-    def __no_status(*args):
+    def _no_status(*args):
         pass
 
 
